@@ -192,13 +192,6 @@ theorem NoForceQuit.mono {c c' : Cfg} (g : Grow c c') (h : NoForceQuit c') : NoF
 
 theorem trans_grow {P : Prog} {c c' : Cfg} (ht : Trans P c c') : Grow c c' := (trans_sstep ht).choose_spec.2.2
 
-theorem reach_reach {P : Prog} {c0 c1 c2 : Cfg} (h1 : Reach P c0 c1) (h2 : Reach P c1 c2) : Reach P c0 c2 := by
-  induction h2 with
-  | init => exact h1
-  | step _ hs ih => exact .step ih hs
-  | deliver _ hd ih => exact .deliver ih hd
-  | halt _ hs ih => exact .halt ih hs
-
 end Shape
 
 end Simpleline
